@@ -148,8 +148,8 @@ def check_initial(case, out, full, I0, R0, name):
 
 
 @st.composite
-def ic_case(draw):
-    case = draw(simrun.sim_case(sims=SIMS, nmax=12, labels=('int', 'int', 'perm', 'str', 'tuple')))
+def ic_case(draw, sim=None):
+    case = draw(simrun.sim_case(sims=([sim] if sim else SIMS), nmax=12, labels=('int', 'int', 'perm', 'str', 'tuple')))
     sim = case['sim']
     if sim == 'fast_nonMarkov_SIR' and case['rule']['kind'] == 'table':
         # events exactly at tmin (zero delay / zero duration) are a C10/C11 matter: the full-data summary has one row per time
@@ -339,6 +339,7 @@ def run(ctx):
                        'reorder the candidate lists)', 'positional order taken from the published signatures, not from inspect']
     only = getattr(ctx, 'only', None)
     if not only or 'forms' in only:
-        run_hypothesis(ctx, 'forms', ic_case(), prop_ic, 700 if quick else 30000, rounds=6)
+        for sim in SIMS:
+            run_hypothesis(ctx, 'forms', ic_case(sim), prop_ic, 80 if quick else 3000, rounds=4)
     if not only or 'get_infected_nodes' in only:
         run_hypothesis(ctx, 'get_infected_nodes', gin_case(), prop_gin, 300 if quick else 5000)
